@@ -255,3 +255,13 @@ V("C38-composite-first-validator-only","C38",NP+"nodevalidation/validator.go","	
 V("C38-composite-skips-first","C38",NP+"nodevalidation/validator.go","	for _, v := range c.validators {","	for _, v := range c.validators[1:] {",rule="C38.R2")
 V("C38-tick-skips-epoch","C38",NP+"process_epoch.go","	nextEpoch := np.epochState.EpochCounter() + 1","	nextEpoch := np.epochState.EpochCounter() + 2",rule="C38.R3")
 V("C38-tick-without-alphabet","C38",NP+"process_epoch.go","func (np *Processor) processNewEpochTick() {\n	if !np.alphabetState.IsAlphabet() {\n		np.log.Info(\"non alphabet mode, ignore new epoch tick\")\n		return\n	}","func (np *Processor) processNewEpochTick() {\n	if !np.alphabetState.IsAlphabet() {\n		np.log.Info(\"non alphabet mode, ignore new epoch tick\")\n	}",rule="C38.R3")
+
+EV="pkg/morph/event/"
+V("C34-revert-fix-second-call","C34",EV+"container/notary_requests.go","		if eACLCall.ScriptHash() != cnrCall.ScriptHash() || !eACLCall.Type().Equal(event.NotaryTypeFromString(fschaincontracts.PutContainerEACLMethod)) {\n			return nil, fmt.Errorf(\"unexpected second contract call: %s of %s\", eACLCall.Type(), eACLCall.ScriptHash().StringLE())\n		}\n","",rule="C34.R3")
+V("C34-second-call-method-only","C34",EV+"container/notary_requests.go","		if eACLCall.ScriptHash() != cnrCall.ScriptHash() || !eACLCall.Type().Equal(","		if !eACLCall.Type().Equal(",rule="C34.R3")
+V("C34-witness-validation-skipped-for-4","C34",EV+"notary_preparator.go","	err = p.validateWitnesses(nr.MainTransaction.Scripts, currentAlphabet, invokerWitness)\n	if err != nil {\n		return nil, err\n	}","	err = p.validateWitnesses(nr.MainTransaction.Scripts, currentAlphabet, invokerWitness)\n	if err != nil && !invokerWitness {\n		return nil, err\n	}",rule="C34.R1")
+V("C34-unknown-event-accepted","C34",EV+"notary_preparator.go","	if !allowed {\n		return nil, ErrUnknownEvent\n	}","	if !allowed && len(res) > 1 {\n		return nil, ErrUnknownEvent\n	}",rule="C34.R1")
+V("C34-unary-parser-unwrapped","C34",EV+"parsers.go","	n.p = acceptOnlySingleCall(p)","	n.p = func(events []NotaryEvent) (Event, error) { return p(events[0]) }",rule="C34.R2")
+V("C34-new-multicall-parser-untabled","C34","pkg/innerring/processors/container/processor.go","	p.SetUnaryParser(containerEvent.RestoreRemoveContainerRequest)","	p.SetParser(func(ee []event.NotaryEvent) (event.Event, error) { return containerEvent.RestoreRemoveContainerRequest(ee[0]) })",rule="C34.R2")
+V("C34-announce-load-unchecked","C34","pkg/innerring/processors/container/process_announce_load.go","		cp.log.Error(\"announce load check failed\",\n			zap.Error(err),\n		)\n\n		return","		cp.log.Error(\"announce load check failed\",\n			zap.Error(err),\n		)",rule="C34.R4")
+V("C34-reputation-bad-signature-approved","C34","pkg/innerring/processors/reputation/process_put.go","		rp.log.Info(\"ignore reputation value\",\n			zap.String(\"reason\", \"invalid signature\"),\n		)\n\n		return","		rp.log.Info(\"ignore reputation value\",\n			zap.String(\"reason\", \"invalid signature\"),\n		)",rule="C34.R4")
